@@ -57,6 +57,6 @@ ASSUME = ['consecutive onInput calls are collapsed (how many reads deliver a req
           'descriptor numbers are reused by the OS; the model identifies connections by an id that is never reused']
 
 def run(tier):
-    return core.standard_run(PROP, tier, MODULES, THEOREMS, gen, oracle, classify, RULE, ASSUME, driver=('drv_live', drivers.LIVE_SOURCES))
+    return core.standard_run(PROP, tier, MODULES, THEOREMS, gen, oracle, classify, RULE, ASSUME, driver=('drv_live', drivers.LIVE_SOURCES), retry=2)
 def replay(path):
     return core.standard_replay(PROP, path, oracle, driver=('drv_live', drivers.LIVE_SOURCES))
